@@ -6,6 +6,7 @@ import signal
 from mc.core import UnitResult
 
 ID = "C12"
+PARTS = ['batch', 'value-op']      # outcome classes every run must produce (guards against a part of the exploration silently not running)
 RULE = ("state A = program: every expression form of the Python 3.12 grammar instantiated over an atom pool (depth 1 quick, depth 2 thorough) placed in every statement context "
         "(assignment targets/values, annotations plain and quoted, call arguments incl. * and **, decorators, defaults, base classes, subscripts, f-strings, comprehensions, lambda, "
         "match, with/for/async/await/yield, raise/assert/except, global/nonlocal/del), deliberately ill-typed, under three configurations (test defaults, all codes on, all off); "
